@@ -148,6 +148,40 @@ theorem C05_udp_hdr (ip : Text) (port : Nat) (data : Bytes) (hcomma : 44 ∉ ip)
 example : udpReq (encodeUdp (strV4 10 0 0 1) 53 [44, 44, 1, 44]) = .ok (strV4 10 0 0 1) 53 [44, 44, 1, 44] := by
   decide
 
+/-- **Every datagram carries its own destination.** Whatever the association table already
+holds for the source (a known source reuses its channel, an unknown one gets `UDP_OPEN` first),
+the `UDP_DATA` frame sent for a datagram decodes on the server to *that datagram's* address
+text, port and payload. -/
+theorem C05_udp_per_datagram (tbl : UdpTable) (fam src : Nat) (ip : Text) (port : Nat) (data : Bytes)
+    (fresh : Nat) (hcomma : 44 ∉ ip) (hasc : isAscii ip = true) (hf : fresh ≠ 0) :
+    (dataPayloads (onacceptUdp tbl fam src ip (Int.ofNat port) data (some fresh)).2).map udpReq =
+      [.ok ip (Int.ofNat port) data] := by
+  rw [onacceptUdp_payloads tbl fam src ip port data fresh hasc hf]
+  simp only [List.map_cons, List.map_nil]
+  rw [C05_udp_hdr ip port data hcomma]
+
+/-- **Sequences.** For every sequence of datagrams — any mix of sources, a source sending to
+several different destinations within one association included — the server's `udp_req` sees,
+in order, exactly the destination and payload of each datagram. -/
+theorem C05_udp_sequence (fam : Nat) (tbl : UdpTable) (ds : List Dgram)
+    (h : ∀ d ∈ ds, 44 ∉ d.ip ∧ isAscii d.ip = true ∧ d.fresh ≠ 0) :
+    (dataPayloads (runUdp fam tbl ds)).map udpReq =
+      ds.map fun d => UdpReqRes.ok d.ip (Int.ofNat d.port) d.data := by
+  induction ds generalizing tbl with
+  | nil => rfl
+  | cons d ds ih =>
+    obtain ⟨h1, h2, h3⟩ := h d (by simp)
+    simp only [runUdp, dataPayloads_append, List.map_append, List.map_cons]
+    rw [C05_udp_per_datagram tbl fam d.src d.ip d.port d.data d.fresh h1 h2 h3,
+        ih _ (fun x hx => h x (by simp [hx]))]
+    rfl
+
+/-- Non-vacuity: one source, two destinations; the second frame carries the second one. -/
+example :
+    runUdp 2 [] [⟨1, strV4 10 0 0 1, 53, [1], 7⟩, ⟨1, strV4 10 0 0 2, 5353, [2, 44], 8⟩] =
+      [.open_ 7 [50], .data 7 (bytesOfStr "10.0.0.1,53," ++ [1]),
+       .data 7 (bytesOfStr "10.0.0.2,5353," ++ [2, 44])] := by decide
+
 /-! ## 4. Self-address guard -/
 
 /-- `onaccept_tcp`: if the recovered destination has the accepted socket's own port and
@@ -155,6 +189,22 @@ example : udpReq (encodeUdp (strV4 10 0 0 1) 53 [44, 44, 1, 44]) = .ok (strV4 10
 theorem C05_self_guard (fam : Nat) (ip : Text) (port : Int) (chan : Option Nat) :
     onacceptTcp fam ip port port .yes chan = [.close] := by
   simp [onacceptTcp]
+
+/-- The guard does not depend on what address the listener is bound to: with a wildcard
+listener (`0.0.0.0` / `::`), or one bound to another local address than the one dialled, a
+connection to the proxy's port on *any* local address is dropped (`isLocalAddr` is what the
+bind probe of `islocal` answers; `sockPort`, the accepted socket's own port, is the listener's). -/
+theorem C05_self_guard_bind (fam : Nat) (bindIp dstIp : Text) (wildcard : Bool) (listenPort dstPort : Int)
+    (isLocalAddr : Text → Bool) (chan : Option Nat)
+    (h : IsSelf bindIp wildcard listenPort dstIp dstPort isLocalAddr) :
+    onacceptTcp fam dstIp dstPort listenPort (if isLocalAddr dstIp then .yes else .no) chan = [.close] := by
+  obtain ⟨hp, hl, _⟩ := h
+  subst hp
+  simp [hl, C05_self_guard]
+
+example : IsSelf (bytesOfStr "0.0.0.0") true 12300 (bytesOfStr "192.168.7.5") 12300
+    (fun t => t == bytesOfStr "192.168.7.5" || t == bytesOfStr "127.0.0.1") := by
+  refine ⟨rfl, by decide, Or.inl rfl⟩
 
 /-- Otherwise (different port — `islocal` is then not even consulted — or not local), with a
 free channel id, exactly one CONNECT carrying that destination is sent and the socket is kept. -/
